@@ -177,7 +177,15 @@ def check(repo, rep):
                         continue
                     isms = P.Pat(lambda t: t[0] == 'attr' and t[1] == ('self',) and t[2] in MS, 'budget')
                     isbps = P.Pat(lambda t: (t[0] == 'attr' and t[1] == ('self',) and t[2] in BPS) or P.prod(P.role('sample_width'), P.role('channels'))(t), 'bps')
-                    ok = v[0] == 'sub' and inner(v[1]) and v[2][0] == 'slice' and v[2][1] in (None, ('c', 0), ('c', None)) and v[2][2] is not None and P.prod(isms, isbps)(v[2][2])
+                    hi_ = v[2][2] if v[0] == 'sub' and v[2][0] == 'slice' else None
+                    if hi_ is not None and not P.prod(isms, isbps)(hi_):
+                        # a field that caches the byte budget: replace it by its one definition in the constructor
+                        from ..facts import self_field_exprs, subst_term
+                        fdefs_ = self_field_exprs(cx, mod, '_Limiter')
+                        for x in list(walk(hi_)):
+                            if x[0] == 'attr' and x[1] == ('self',) and x[2] in fdefs_ and x[2] not in MS and x[2] not in BPS:
+                                hi_ = subst_term(hi_, x, fdefs_[x[2]])
+                    ok = v[0] == 'sub' and inner(v[1]) and v[2][0] == 'slice' and v[2][1] in (None, ('c', 0), ('c', None)) and hi_ is not None and P.prod(isms, isbps)(hi_)
                     rep.ob('the limiter trims the recording with the SAME sample budget that read() enforces (round(max_read*rate) samples x bytes per sample)', ok, W(l.node), '_Limiter.data:trim',
                            'data is %s' % show(v)[:140], sample=dict(limiter_data=show(v)[:120]))
     # ---------------------------------------------------------------- 4. reset-completeness of the wrappers and rewind propagation
@@ -271,11 +279,11 @@ def check(repo, rep):
     for v in sub.violations:
         if 'composition' in v['rule'] or 'limiter' in v['rule']:
             rep.violations.append(v)
-    check_roles(cx, rep, lambda p: p['func'].startswith('_Recorder.'), floor=3)
+    check_roles(cx, rep, lambda p: p['func'].startswith(('_Recorder.', 'Recorder.', 'AudioReader.', '_Limiter.')), floor=3)
     rep.explanation = ('Decided from provenance terms, field definitions and effects: the recording read returns the inner block unchanged and appends exactly that block once on the not-None path only; rewind: '
                        'first time -> data = b"".join(cache) (read order), source replaced by BufferAudioSource(data, rate, width, channels) in role, reader switched to it, opened, flag set; later -> inner '
                        'rewind with data untouched; data raises while unset; reset-completeness: in every wrapper class each field written on the read path or holding generator state is re-initialised by '
                        'that class\'s rewind to its construction value (the recorder\'s cache is the one exception: it is the recording) and rewind propagates inward; a non-recording AudioReader raises '
                        'AttributeError for {data, rewind}; Recorder = AudioReader(record=True); wrapper composition and limiter rules of C10 (never beyond max_read). '
-                       'NOT decided: replay equality over whole histories (argued from these facts and C11 for the in-memory source).')
+                       'The recorder\'s typestate is decided on a finite abstract machine (sa/typestate.py): reachable abstract states under read->block / read->None / rewind / data explored to a fixpoint, independent of the fields, flags or method pointers the class uses. NOT decided: replay equality over whole histories (argued from these facts and C11 for the in-memory source).')
     rep.assumptions = ['C11 for BufferAudioSource (replay source)', 'C10 for framing and limiter']
